@@ -29,6 +29,7 @@ import sys
 
 sys.path.insert(0, os.path.dirname(os.path.abspath(__file__)))
 from py2lean_section import find_in_helpers as _unused  # noqa: F401  (same file layout; own finders below)
+import pynorm_builder as pynorm   # canonical surface shape (see its doc string): applied to the methods found AND to every template below
 
 TARGETS = ["add_segment", "add_unbranched_segments", "add_segment_group", "add_unbranched_segment_group",
            "setup_default_segment_groups", "reorder_segment_groups", "setup_nml_cell", "optimise_segment_groups",
@@ -139,8 +140,17 @@ def _dump(node):
     return ast.dump(node, include_attributes=False)
 
 
+def _norm_src(src):
+    return pynorm.normalise_block(ast.parse(src.strip("\n")).body)
+
+
 def _stmt_dumps(table):
-    return {_dump(ast.parse(src.strip("\n")).body[0]): name for name, src in table.items()}
+    out = {}
+    for name, src in table.items():
+        st = _norm_src(src)
+        assert len(st) == 1, "vocabulary entry %s is not ONE statement in canonical shape" % name
+        out[_dump(st[0])] = name
+    return out
 
 
 STMT_DUMPS = _stmt_dumps(STATEMENTS)
@@ -148,7 +158,7 @@ GROUP_DUMPS = _stmt_dumps(GROUP_STATEMENTS)
 CONV_DUMPS = _stmt_dumps(CONV_STATEMENTS)
 COND_GROUP_ID = _dump(ast.parse("group_id", mode="eval").body)
 COND_USE_CONV = _dump(ast.parse("use_convention", mode="eval").body)
-CHAIN_ELSE_DUMP = _dump(ast.parse(CHAIN_ELSE).body[0])
+CHAIN_ELSE_DUMP = _dump(_norm_src(CHAIN_ELSE)[0])
 
 
 def lean_str(s):
@@ -209,7 +219,7 @@ class Tr:
                 kw = {k.arg: k.value for k in body.value.keywords}
                 groups = const_str_list(kw.get("default_groups"))
                 if groups is not None:
-                    probe = ast.parse(CHAIN_ASSIGN.replace("HOLE", repr(groups))).body[0]
+                    probe = _norm_src(CHAIN_ASSIGN.replace("HOLE", repr(groups)))[0]
                     if _dump(probe) != _dump(body):
                         groups = None
             if groups is None:
@@ -275,7 +285,7 @@ def body_dump(fn):
 
 
 def template_dump(src):
-    return [_dump(s) for s in ast.parse(src.strip("\n")).body]
+    return [_dump(s) for s in _norm_src(src)]
 
 
 REORDER_T = '''
@@ -357,10 +367,20 @@ return self.get_segment_group(group_id)
 '''
 
 
+REF_TEMPLATES = {
+    "reorder_segment_groups": REORDER_T, "optimise_segment_groups": OPTIMISE_ALL_T, "add_segment_group": ADD_GROUP_T,
+    "add_unbranched_segment_group": ADD_UNB_GROUP_T, "setup_nml_cell": SETUP_NML_CELL_T, "add_membrane_property": ADD_MEMBRANE_T,
+    "add_intracellular_property": ADD_INTRA_T, "add_channel_density": ADD_CD_T, "add_channel_density_v": ADD_CD_V_T,
+    "add_unbranched_segments": UNBRANCHED_T,
+    "set_spike_thresh": WRAPPER_T["set_spike_thresh"][0], "set_init_memb_potential": WRAPPER_T["set_init_memb_potential"][0],
+    "set_specific_capacitance": WRAPPER_T["set_specific_capacitance"][0], "set_resistivity": WRAPPER_T["set_resistivity"][0],
+}
+
+
 def match_with_hole(fn, template, hole_kind, tr):
     """the body equals the template for exactly one value of the hole; returns that value (or None + gap)"""
     body = strip_doc(fn.body)
-    tstmts = ast.parse(template.strip("\n").replace("HOLE", "__HOLE__")).body
+    tstmts = _norm_src(template.replace("HOLE", "__HOLE__"))
     if len(body) != len(tstmts):
         tr.gap(fn, "body has %d statements, the template %d" % (len(body), len(tstmts)))
         return None
@@ -440,12 +460,13 @@ return new_groups
         assert _dump(iff.body[1]) == _dump(ast.parse("self.reorder_segment_groups()").body[0])
         loop = iff.body[0]
         assert isinstance(loop, ast.For) and not loop.orelse and isinstance(loop.target, ast.Name) and loop.target.id == "grp"
-        assert _dump(loop.iter) == _dump(ast.parse("default_groups", mode="eval").body) and len(loop.body) == 5
+        tail = _norm_src("seg_group = self.add_segment_group(group_id=grp, neuro_lex_id=neuro_lex_id, notes=notes)\n"
+                         "new_groups.append(seg_group)")      # canonical shape: the single-use local is inlined
+        assert _dump(loop.iter) == _dump(ast.parse("default_groups", mode="eval").body) and len(loop.body) == 3 + len(tail)
         lb = loop.body
         assert _dump(lb[0]) == _dump(ast.parse("neuro_lex_id = None").body[0])
         assert _dump(lb[1]) == _dump(ast.parse("notes = None").body[0])
-        assert _dump(lb[3]) == _dump(ast.parse("seg_group = self.add_segment_group(group_id=grp, neuro_lex_id=neuro_lex_id, notes=notes)").body[0])
-        assert _dump(lb[4]) == _dump(ast.parse("new_groups.append(seg_group)").body[0])
+        assert [_dump(x) for x in lb[3:]] == [_dump(x) for x in tail]
         table = []
         cur = lb[2]
         while True:
@@ -540,6 +561,14 @@ def nlx_table(repo, gaps):
     return []
 
 
+# locals of today's `add_segment` / `setup_default_segment_groups` in order of first binding (canonical shape); the
+# other methods take theirs from their template
+REF_LOCALS = {
+    "add_segment": ["p", "e", "d", "segid", "sp", "segment", "seg_group", "seg_group_default", "seg_group_all", "segment_name"],
+    "setup_default_segment_groups": ["new_groups", "grp", "neuro_lex_id", "notes"],
+}
+
+
 def translate_one(label, table):
     """one file's methods -> dict of results (all plain data, comparable across the two files)"""
     tr = Tr(label)
@@ -557,6 +586,14 @@ def translate_one(label, table):
             tr.gap(fn, "decorated")
         ps, kw = params(fn, tr)
         res["params:" + key] = (ps, kw)
+        # canonical surface shape: equivalent spellings of the same statements, locals named as in today's code
+        pnames = [n for n, _ in ps] + ([kw] if kw else [])
+        ref = REF_LOCALS.get(key)
+        if ref is None and key in REF_TEMPLATES:
+            ref = pynorm.locals_in_order(_norm_src(REF_TEMPLATES[key].replace("HOLE", "'x'")), pnames)
+        fns[key], note = pynorm.normalise_function(fn, ref)
+        if note:
+            res.setdefault("notes", []).append("%s: %s" % (key, note))
     if "add_segment" in fns:
         tr.label = "%s: Cell.add_segment" % label
         res["addSegment"] = tr.add_segment(fns["add_segment"])
